@@ -76,6 +76,8 @@ class Report:
         """A rule that matches fewer instances than were confirmed by hand is
         not believed: analysis error, never a silent pass."""
         self.counts["%s:%s" % (rule, what)] = n
+        if self.only is not None and not any(rule == p or rule.startswith(p) or p.startswith(rule) for p in self.only):
+            return          # the rule's obligations are not part of the property being checked (rep.keep): neither is its floor
         if n < minimum and any((not o["ok"]) and o["rule"].startswith(rule) for o in self.obs):
             # the rule already reports what is wrong with the construct it could not match:
             # a finding, not a vacuous pass
